@@ -216,6 +216,12 @@ def _message_received(h, g):
                 from_address=0x80, packet_id=1, message_id=h.attr(S[shape], "message_id"), message_length=0)
     E.stub_process()
     old_version = h.attr(E.at, "_console_version")
+    if g == 4 and h.choice("poll_task_left_over_from_an_earlier_session", [False, True]):
+        # after shutdown() the attribute may still refer to the cancelled task of the previous session
+        stale = aio.create_task(h.it, Opaque("old-poll-coro"))
+        stale.cancelled = True
+        h.it.path.events.clear()
+        h.setattr(E.at, "_group_status_request_task", stale)
     r = h.method(E.at, "_message_received", hdr, S[shape])
     nxt, req, proc, done = expected(g, state, shape, to_client)
     h.oblige("_message_received never raises", r.ok)
@@ -337,9 +343,19 @@ def _shutdown(h, g):
         task = aio.create_task(it, Opaque("poll-coro"))
         it.path.events.clear()
         h.setattr(E.at, "_group_status_request_task", task)
+    first = {}
+
+    def at_first_suspension(e):
+        if e[0] == "suspend" and not first:
+            first["state"] = E.state()
+            first["flag"] = init_ev.flag
+    E.w.site_checks.append(at_first_suspension)
     r = h.method(E.at, "shutdown")
     ev = it.path.events
     h.oblige("shutdown never raises", r.ok)
+    h.oblige("the state machine is CLOSED and the initialised flag cleared before shutdown first suspends "
+             "(a frame arriving while it waits must not complete the handshake or restart the heartbeat)",
+             And(first.get("state") == "CLOSED", h.eq(first.get("flag"), False)) if first else False)
     h.oblige("state CLOSED, not initialised", And(E.state() == "CLOSED", h.eq(init_ev.flag, False), h.eq(h.prop(E.at, "initialised").value, False)))
     h.oblige("the heartbeat is stopped and the socket closed, exactly once each",
              And(len([e for e in ev if e[0] == "heartbeat.stop"]) == 1, len([e for e in ev if e[0] == "call" and e[1] == "close"]) == 1))
